@@ -263,3 +263,222 @@ Proof.
   intro I. unfold same_observables. repeat split; try (destruct I; assumption).
   eapply dump_globals_iso; eauto.
 Qed.
+
+(* ====================================================================== *)
+(* 5. tick_ok (no stop request pending or possible) is kept by the evaluator *)
+(* ====================================================================== *)
+Definition keeps_ok (s s' : state) : Prop := tick_ok s -> tick_ok s'.
+
+Lemma keeps_ok_tick s : st_stopped s = false ->
+  keeps_ok s (upd_yield (S (st_yields s))
+                (match st_stop_at s with Some k => Nat.eqb k (st_yields s) | None => false end) s).
+Proof. intros _ [H1 H2]. split; simpl; [rewrite H2; reflexivity | exact H2]. Qed.
+
+Definition eval_keeps_ok :=
+  eval_resp keeps_ok (fun s H => H) (fun a b c H1 H2 H => H2 (H1 H))
+    (fun h s H => H) (fun g s H => H) keeps_ok_tick
+    (fun i s H => H) (fun t f s H => H) (fun ev s H => H).
+
+Lemma eval_call_keeps_ok n P e nm args s r s' :
+  eval_call n P e nm args s = (r, s') -> tick_ok s -> tick_ok s'.
+Proof. intro H. exact (proj1 (proj2 (proj2 (eval_keeps_ok n))) P e nm args s r s' H). Qed.
+
+(* ====================================================================== *)
+(* 6. Literal arguments on the call side                                   *)
+(* ====================================================================== *)
+Lemma lit_state_eq a s :
+  lit_state a s = alloc_st (alloc_st (upd_yield (S (st_yields s)) false s) (hval_of_payload a)) (hval_of_payload a).
+Proof. reflexivity. Qed.
+
+Lemma lit_run_props args : forall f sE s,
+  iso f sE s -> tick_ok s ->
+  let ls := fst (lit_run args s) in
+  let s2 := snd (lit_run args s) in
+  iso f sE s2 /\ tick_ok s2 /\ Forall2 (holds_in s2) ls args /\ NoDup ls /\
+  (forall v, In v ls -> hnext (st_heap s) <= v) /\
+  (forall l v, hget (st_heap s) l = Some v -> hget (st_heap s2) l = Some v).
+Proof.
+  induction args as [|a t IH]; intros f sE s I T; simpl.
+  - split; [exact I|]. split; [exact T|]. split; [constructor|]. split; [constructor|].
+    split; [intros v []| auto].
+  - assert (I1 : iso f sE (lit_state a s)).
+    { rewrite lit_state_eq. apply iso_right_alloc, iso_right_alloc. destruct T. apply iso_right_yield; auto. }
+    pose proof (tick_ok_lit_state a s T) as T1.
+    destruct (IH f sE (lit_state a s) I1 T1) as (I2 & T2 & H2 & ND2 & G2 & X2).
+    destruct (lit_run t (lit_state a s)) as [ls s2] eqn:L. simpl in *.
+    pose proof (iso_wf2 _ _ _ I) as W.
+    assert (N1 : hnext (st_heap (lit_state a s)) = Pos.succ (Pos.succ (hnext (st_heap s)))) by reflexivity.
+    split; [exact I2|]. split; [exact T2|]. split; [|split; [|split]].
+    + constructor; [|exact H2]. unfold holds_in. apply X2. apply lit_heap_copy.
+    + constructor; [|exact ND2]. intro Hin. apply G2 in Hin. try rewrite N1 in Hin. simpl in Hin. lia.
+    + intros v [<-|Hin]; [lia|]. apply G2 in Hin. try rewrite N1 in Hin. simpl in Hin. lia.
+    + intros l v Hl. apply X2. unfold lit_state; fields. rewrite lit_heap_old; auto.
+      eapply wf_alloc_lt; eauto.
+Qed.
+
+(* ====================================================================== *)
+(* 7. One event against the call with literal arguments; whole histories   *)
+(* ====================================================================== *)
+Theorem event_as_literal_call fuel P pn (e : ev) h f sE sC :
+  procs_mirror_handlers P pn ->
+  find_handler (fst e) (p_handlers P) = Some h ->
+  (forall er s', bind_payload (h_params h) (snd e) [] sE <> (Er er, s')) ->
+  (List.length (h_params h) < fuel)%nat ->
+  iso f sE sC -> tick_ok sC ->
+  fst (handle_event fuel P (fst e) (snd e) sE) = fst (call_event fuel P pn e sC) /\
+  tick_ok (snd (call_event fuel P pn e sC)) /\
+  exists f', ext f f' /\ iso f' (snd (handle_event fuel P (fst e) (snd e) sE)) (snd (call_event fuel P pn e sC)).
+Proof.
+  intros PM Hh OKp Lf I T.
+  assert (Hin : In h (p_handlers P)).
+  { clear -Hh. induction (p_handlers P) as [|x t IH]; simpl in Hh; [discriminate|].
+    destruct (str_eqb (h_name x) (fst e)); [inversion Hh; left; auto | right; auto]. }
+  assert (Hn : h_name h = fst e).
+  { clear -Hh. induction (p_handlers P) as [|x t IH]; simpl in Hh; [discriminate|].
+    destruct (str_eqb (h_name x) (fst e)) eqn:Q; [inversion Hh; subst; apply str_eqb_eq; auto | auto]. }
+  destruct (PM h Hin) as (UF & fd & Ff & Fp & Fv & Fb). rewrite Hn in UF, Ff.
+  unfold call_event. rewrite Hh.
+  set (args' := firstn (List.length (h_params h)) (snd e)).
+  assert (La : (List.length args' < fuel)%nat).
+  { unfold args'. rewrite firstn_length. lia. }
+  pose proof (eval_call_keeps_ok (S fuel) P [] (pn (fst e)) (map payload_expr args') sC) as KO.
+  rewrite (eval_call_user_unfold fuel P [] (pn (fst e)) (map payload_expr args') fd sC UF Ff) in *.
+  rewrite (eval_exprs_literals P [] args' fuel sC T La) in *.
+  destruct (lit_run_props args' f sE sC I T) as (I2 & T2 & H2 & ND2 & G2 & _).
+  set (vals := fst (lit_run args' sC)) in *. set (sC2 := snd (lit_run args' sC)) in *.
+  destruct (event_as_call fuel P (fst e) (snd e) h fd vals f sE sC2 Hh Fp Fv Fb I2 H2 ND2) as [O (f' & E' & I')].
+  { intros v a Hv Q. apply G2 in Hv.
+    destruct (iso_cells _ _ _ I _ _ Q) as (_ & w & _ & Gw & _).
+    pose proof (wf_alloc_lt _ _ _ (iso_wf2 _ _ _ I) Gw). lia. }
+  { exact OKp. }
+  destruct (call_user fuel P fd vals sC2) as [r2 s2] eqn:CU. simpl in *.
+  split; [exact O|]. split; [eapply KO; eauto | eauto].
+Qed.
+
+Theorem events_as_calls fuel P pn : forall (es : list ev) f sE sC,
+  procs_mirror_handlers P pn ->
+  iso f sE sC -> tick_ok sC ->
+  (forall e, In e es -> exists h vs,
+       find_handler (fst e) (p_handlers P) = Some h /\
+       payload_vals (h_params h) (snd e) = PvOk vs /\ (List.length (h_params h) < fuel)%nat) ->
+  fst (handle_events fuel P es sE) = fst (call_events fuel P pn es sC) /\
+  exists f', ext f f' /\ iso f' (snd (handle_events fuel P es sE)) (snd (call_events fuel P pn es sC)).
+Proof.
+  induction es as [|e t IH]; intros f sE sC PM I T H; simpl.
+  - split; auto. exists f. split; [apply ext_refl | exact I].
+  - destruct (H e (or_introl eq_refl)) as (h & vs & Hh & Pv & Lf).
+    destruct (event_as_literal_call fuel P pn e h f sE sC PM Hh) as (O1 & T1 & f1 & E1 & I1); auto.
+    { intros er s'. rewrite bind_payload_exact. unfold bind_payload_result. rewrite Pv. discriminate. }
+    destruct (handle_event fuel P (fst e) (snd e) sE) as [o1 s1].
+    destruct (call_event fuel P pn e sC) as [o2 s2]. simpl in *.
+    destruct (IH f1 s1 s2 PM I1 T1) as (O2 & f2 & E2 & I2).
+    { intros e' He'. apply H. right; exact He'. }
+    destruct (handle_events fuel P t s1) as [os1 s1'], (call_events fuel P pn t s2) as [os2 s2']. simpl in *.
+    split; [congruence|]. exists f2. split; [eapply ext_trans; eauto | exact I2].
+Qed.
+
+(* ====================================================================== *)
+(* 8. C09: garbage does not matter                                         *)
+(* ====================================================================== *)
+Definition refs (v : hval) : list loc :=
+  match v with HAny _ i => [i] | HArr els => els | HMap m => map snd (pairs m) | _ => [] end.
+
+(* the partial identity on a set of cells *)
+Definition pid (D : loc -> bool) : lmap := fun l => if D l then Some l else None.
+
+(* s1 and s2 agree on the set D, which contains the global roots and is closed under
+   references; outside D (garbage) the two heaps are unrelated *)
+Record agree (D : loc -> bool) (s1 s2 : state) : Prop := {
+  ag_wf1 : wf s1;
+  ag_wf2 : wf s2;
+  ag_cells : forall l, D l = true ->
+             exists v, hget (st_heap s1) l = Some v /\ hget (st_heap s2) l = Some v /\
+                       Forall (fun c => D c = true) (refs v);
+  ag_glob : st_globals s1 = st_globals s2;
+  ag_roots : Forall (fun nl => D (snd nl) = true) (st_globals s1);
+  ag_trace : st_trace s1 = st_trace s2;
+  ag_stopped : st_stopped s1 = st_stopped s2;
+  ag_stop_at : st_stop_at s1 = st_stop_at s2;
+  ag_yields : st_yields s1 = st_yields s2;
+  ag_cay : st_check_after_yield s1 = st_check_after_yield s2;
+  ag_input : st_input s1 = st_input s2;
+  ag_total : st_total s1 = st_total s2;
+  ag_fails : st_fails s1 = st_fails s2;
+  ag_failfast : st_failfast s1 = st_failfast s2 }.
+
+Lemma pid_lrels D l : Forall (fun c => D c = true) l -> lrels (pid D) l l.
+Proof. intro F. induction F; constructor; auto. unfold lrel, pid. rewrite H. reflexivity. Qed.
+Lemma pid_framerel D (fr : frame) : Forall (fun nl => D (snd nl) = true) fr -> framerel (pid D) fr fr.
+Proof.
+  intro F. induction F as [|[n l] t H F IH]; constructor; auto. split; simpl; [reflexivity|].
+  unfold lrel, pid. simpl in H. rewrite H. reflexivity.
+Qed.
+Lemma pid_hvrel D v : Forall (fun c => D c = true) (refs v) -> hvrel (pid D) v v.
+Proof.
+  intro F. destruct v; simpl in F; constructor; auto.
+  - inversion F; subst. unfold lrel, pid. rewrite H1. reflexivity.
+  - apply pid_lrels; auto.
+  - apply pid_framerel. clear -F. induction (pairs m) as [|[k l] t IH]; simpl in *; constructor; inversion F; auto.
+Qed.
+
+Lemma agree_iso D s1 s2 : agree D s1 s2 -> iso (pid D) s1 s2.
+Proof.
+  intro A. destruct A. constructor; auto.
+  - intros a a' b Ha Ha'. unfold pid in *. destruct (D a), (D a'); congruence.
+  - intros a b H. unfold pid in H. destruct (D a) eqn:Da; inversion H; subst b.
+    destruct (ag_cells0 a Da) as (v & G1 & G2 & F). exists v, v. repeat split; auto. apply pid_hvrel; auto.
+  - rewrite <- ag_glob0. apply pid_framerel; auto.
+Qed.
+
+(* whole runs from states that differ only in garbage: same outcome, same observables (trace,
+   input, test counters, structural dump of the globals), isomorphic final states *)
+Theorem garbage_noninterference_run D fuel P s1 s2 :
+  agree D s1 s2 ->
+  fst (run_program fuel P s1) = fst (run_program fuel P s2) /\
+  same_observables (snd (run_program fuel P s1)) (snd (run_program fuel P s2)) /\
+  exists f', ext (pid D) f' /\ iso f' (snd (run_program fuel P s1)) (snd (run_program fuel P s2)).
+Proof.
+  intro A. destruct (run_program_iso fuel P _ _ _ (agree_iso _ _ _ A)) as [O (f' & E & I)].
+  split; [exact O|]. split; [eapply iso_same_observables; eauto | eauto].
+Qed.
+
+Theorem garbage_noninterference_event D fuel P name args s1 s2 :
+  agree D s1 s2 ->
+  fst (handle_event fuel P name args s1) = fst (handle_event fuel P name args s2) /\
+  same_observables (snd (handle_event fuel P name args s1)) (snd (handle_event fuel P name args s2)) /\
+  exists f', ext (pid D) f' /\
+             iso f' (snd (handle_event fuel P name args s1)) (snd (handle_event fuel P name args s2)).
+Proof.
+  intro A. destruct (handle_event_iso fuel P name args _ _ _ (agree_iso _ _ _ A)) as [O (f' & E & I)].
+  split; [exact O|]. split; [eapply iso_same_observables; eauto | eauto].
+Qed.
+
+(* statements in an environment whose cells are in D *)
+Theorem garbage_noninterference_stmts D n P (e : env) l s1 s2 :
+  agree D s1 s2 -> Forall (Forall (fun nl => D (snd nl) = true)) e ->
+  exists f', ext (pid D) f' /\
+    iso f' (snd (exec_stmts n P e l s1)) (snd (exec_stmts n P e l s2)) /\
+    rrel (serel f') (fst (exec_stmts n P e l s1)) (fst (exec_stmts n P e l s2)).
+Proof.
+  intros A He. apply (exec_stmts_iso P n (pid D) e e l); [|apply agree_iso; exact A].
+  induction He; constructor; auto. apply pid_framerel; auto.
+Qed.
+
+(* ====================================================================== *)
+(* 9. events_as_calls, in the form of SemEvents.events_as_calls_full        *)
+(* ====================================================================== *)
+(* both sides start from the same state s, all of whose cells are live (D = allocated cells);
+   a fuel bound per event stands in place of the exclusion of EOutOfFuel outcomes *)
+Theorem events_as_calls_observables D fuel P pn (es : list ev) s :
+  procs_mirror_handlers P pn -> agree D s s ->
+  st_stop_at s = None -> st_stopped s = false ->
+  (forall e, In e es -> exists h vs,
+       find_handler (fst e) (p_handlers P) = Some h /\
+       payload_vals (h_params h) (snd e) = PvOk vs /\ (List.length (h_params h) < fuel)%nat) ->
+  fst (handle_events fuel P es s) = fst (call_events fuel P pn es s) /\
+  same_observables (snd (handle_events fuel P es s)) (snd (call_events fuel P pn es s)).
+Proof.
+  intros PM A N S H.
+  destruct (events_as_calls fuel P pn es (pid D) s s PM (agree_iso _ _ _ A) (conj S N) H) as [O (f' & E & I)].
+  split; [exact O | eapply iso_same_observables; eauto].
+Qed.
